@@ -100,7 +100,7 @@ class Ctx:
 
     def inconc(self, reason):
         if len(self.inconclusive) < 20:
-            self.inconclusive.append(str(reason)[:500])
+            self.inconclusive.append(str(reason)[-1500:])
         self.count("inconclusive_cases")
 
     def summary(self):
